@@ -496,6 +496,11 @@ WITNESS_F3B = {'gvars': {}, 'svars': {}, 'comps': [
     {'stage': 0, 'name': 'a1', 'refs': [], 'args': 'hi', 'rep': None, 'agg': False, 'cvars': {}}]}
 
 
+WITNESS_F3C = {'gvars': {}, 'svars': {}, 'comps': [
+    {'stage': 0, 'name': 'A', 'refs': [], 'args': 'hi', 'rep': 2, 'agg': False, 'cvars': {}},
+    {'stage': 0, 'name': 'C', 'refs': ['A:ref', 'stage0.A:ref'], 'args': 'hi', 'rep': None, 'agg': True, 'cvars': {}}]}
+
+
 def run(ctx):
     rng = ctx.rng
     ctx.rule = ('random acyclic workflows (2-8 components, 1-3 stages) over a small alphabet of component names '
@@ -505,7 +510,7 @@ def run(ctx):
                 'implementation receives the components in a shuffled order; non-trivial = at least two replica copies '
                 'are produced and some component has references; distinct by the whole workflow')
     n = 1100 if ctx.tier == 'quick' else 12000
-    cases = [(WITNESS_F3, None), (WITNESS_F3B, None)]
+    cases = [(WITNESS_F3, None), (WITNESS_F3B, None), (WITNESS_F3C, None)]
     for k in range(n):
         mode = 'clean' if rng.random() < 0.35 else 'mixed'
         wf = gen_workflow(rng, mode)
